@@ -215,16 +215,25 @@ coap_rebuild_pdu_for_proxy(coap_pdu_t *pdu) {
   coap_opt_t *option;
   uint8_t option_value_buffer[15];
   coap_optlist_t *optlist_chain = NULL;
+  coap_optlist_t *opt;
+  coap_bin_const_t *proxy_uri;
 
   if ((option =
            coap_check_option(pdu, COAP_OPTION_PROXY_URI, &opt_iter)) == NULL)
     return 1;
 
-  /* Need to break down into the component parts, but keep data safe */
+  /*
+   * Need to break down into the component parts, but keep data safe:
+   * uri points into the copy, not into the option that is about to be removed.
+   */
   memset(&uri, 0, sizeof(uri));
+  proxy_uri = coap_new_bin_const(coap_opt_value(option),
+                                 coap_opt_length(option));
+  if (!proxy_uri)
+    return 0;
 
-  if (coap_split_proxy_uri(coap_opt_value(option),
-                           coap_opt_length(option),
+  if (coap_split_proxy_uri(proxy_uri->s,
+                           proxy_uri->length,
                            &uri) < 0 || uri.scheme >= COAP_URI_SCHEME_LAST) {
     coap_log_warn("Proxy URI '%.*s' not decodable\n",
                   coap_opt_length(option),
@@ -259,8 +268,11 @@ coap_rebuild_pdu_for_proxy(coap_pdu_t *pdu) {
                                  &optlist_chain))
       goto error;
   }
-  if (!coap_add_optlist_pdu(pdu, &optlist_chain))
-    goto error;
+  /* The PDU may already hold data: insert, do not append */
+  for (opt = optlist_chain; opt; opt = opt->next) {
+    if (!coap_insert_option(pdu, opt->number, opt->length, opt->data))
+      goto error;
+  }
 
   if (!coap_insert_option(pdu,
                           COAP_OPTION_PROXY_SCHEME,
@@ -269,10 +281,12 @@ coap_rebuild_pdu_for_proxy(coap_pdu_t *pdu) {
     goto error;
 
   coap_delete_optlist(optlist_chain);
+  coap_delete_bin_const(proxy_uri);
   return 1;
 
 error:
   coap_delete_optlist(optlist_chain);
+  coap_delete_bin_const(proxy_uri);
   return 0;
 }
 
